@@ -44,7 +44,7 @@ type c17cfg struct {
 	workers string // "1", "2+dedicated"
 	depth   int
 	seed    uint64 // of the keys the provider draws for its prefix-length measurement
-	prelude string // "" | "split": start(k0,k1,k4,k5); swarm+=2; clock+I before the explored program (deeper histories)
+	prelude string // "" | "split": start(k0,k1,k4,k5); swarm+=2; clock+I | "restarted": start(k0,k1,k4,k5); clock+I/4; restart - before the explored program (deeper histories)
 }
 
 func c17Configs(tier string) []vmc.Cfg {
@@ -69,6 +69,9 @@ func c17Configs(tier string) []vmc.Cfg {
 				if sw == 6 && wk != "1" {
 					// after this prelude the swarm has grown so that a scheduled region splits into a part with keys and a part without
 					out = append(out, vmc.Cfg{Name: fmt.Sprintf("program/swarm%d/r%d/workers-%s/prelude-split/depth%d/seed1", sw, r, wk, depth), Data: c17cfg{sw, r, wk, depth, 1, "split"}})
+					if r == 2 {
+						out = append(out, vmc.Cfg{Name: fmt.Sprintf("program/swarm%d/r%d/workers-%s/prelude-restarted/depth%d/seed1", sw, r, wk, depth), Data: c17cfg{sw, r, wk, depth, 1, "restarted"}})
+					}
 				}
 			}
 		}
@@ -455,8 +458,13 @@ func c17Run(x *vmc.X, cfg vmc.Cfg) {
 			return true
 		}},
 	}
-	if c.prelude == "split" {
-		for _, name := range []string{"start(k0,k1,k4,k5)", "swarm+=2", "clock+I"} {
+	if c.prelude != "" {
+		names := []string{"start(k0,k1,k4,k5)", "swarm+=2", "clock+I"}
+		if c.prelude == "restarted" {
+			// a first restart a quarter of an interval into the cycle: the explored program can then restart a second time
+			names = []string{"start(k0,k1,k4,k5)", "clock+I/4", "restart"}
+		}
+		for _, name := range names {
 			for _, o := range ops {
 				if o.name == name {
 					time.Sleep(time.Second)
@@ -648,6 +656,18 @@ func c17Run(x *vmc.X, cfg vmc.Cfg) {
 				for _, r := range restarts {
 					if r.t > prev && r.t < t {
 						sig = "C17/reprovide-gap-across-restart"
+						// D20's second form needs a slot that was missed while the node was cut off: a gap across a restart of a
+						// node that was never offline nor saw its swarm change, with the region under the same prefix, is
+						// something else
+						disturbed := false
+						for _, h := range hist {
+							if h.t < t && (h.name == "offline" || strings.HasPrefix(h.name, "swarm")) {
+								disturbed = true
+							}
+						}
+						if !disturbed && r.before[k] == after[k] {
+							sig = "C17/reprovide-gap-across-restart-undisturbed"
+						}
 						if r.before[k] != after[k] {
 							sig = "C17/reprovide-gap-across-restart-with-rescheduled-region"
 							note = fmt.Sprintf(" [restart at %v; the key's region was scheduled under %q before it and is under %q now]", r.t, r.before[k], after[k])
